@@ -49,6 +49,9 @@ CHECKS['C07'] = dict(level='translation_validation', ref='4/C07',
 CHECKS['C08'] = dict(level='translation_validation', ref='4/C08',
    text="A monitor on the translation-validation runs checks every fetch, load and store made while the compiled program runs: word index below 200000, no store into a fetched word, stores only into DATA words or above the image, stack pointer never above its load-time value and restored when main returns; symbolic addresses are decided by z3.",
    note=TVNOTE)
+CHECKS['C13'] = dict(level='other', ref='4/C13',
+   text="hextb.cpp's own load() and run() execute on the Verilated model built by the real Vhex_pkg constructor chain with VL_RAND_RESET_I returning fresh symbols (every register, net and trigger bit) and all non-image memory one arbitrary SMT array; on every path through the reset window z3 proves memory equal to the loaded image for every word, no system call serviced, registers zero. From the next edge C03 applies.",
+   note="Trusted: Verilator 5.006 output and two-state semantics, irsym, z3/cvc5, libverilated/pthread externals as no-ops, the 2^19-iteration memory reset loop cut to one arbitrary array; run() followed for the reset window only (maxCycles 4).")
 NA = {}
 ALL = [json.loads(l)['id'] for l in open(os.path.join(V, 'properties.jsonl'))]
 PENDING = "check not built yet in this session (planned in DESIGN.md); not claimed until it exists"
